@@ -86,7 +86,7 @@ class TLCResult:
 
 def tlc(pid, family, module, cfg=None, *, workers=None, simulate=None, depth=None, seed=None,
         timeout=600, dfs=False, extra_files=(), extra_args=(), coverage=False, heap=None,
-        keep_out=True, env_extra=None, sdir=None):
+        keep_out=True, env_extra=None, sdir=None, stop_after=None):
     """Run TLC on specs/<family>/<module>.tla with <cfg> in a scratch copy. Never raises on a
     violation; raises Infra only when TLC could not be started."""
     d = sdir or scratch(pid, family, extra_files)
@@ -96,6 +96,8 @@ def tlc(pid, family, module, cfg=None, *, workers=None, simulate=None, depth=Non
     java.append("-Xmx%s" % (heap or os.environ.get("VERIF_TLC_HEAP", "8g")))
     if dfs:
         java.append("-Dtlc2.tool.queue.IStateQueue=StateDeque")
+    if stop_after:
+        java.append("-Dtlc2.TLC.stopAfter=%d" % int(stop_after))
     cmd = java + ["-cp", TLA_JAR, "tlc2.TLC", "-metadir", meta, "-config", cfg]
     if simulate is not None:
         cmd += ["-simulate", simulate]
@@ -178,7 +180,8 @@ def _parse_tlc(r):
 def simulate_timeboxed(o, family, module, cfg, seconds, *, depth=120, seed=1, workers=4):
     """TLC -simulate of a design spec for a fixed wall time; every invariant is evaluated in every visited state.
     A violation is a problem of the design spec (exit 2), never a verdict about the implementation."""
-    r = tlc(o.pid, family, module, cfg, simulate="num=1000000000", depth=depth, seed=seed, workers=workers, timeout=seconds)
+    r = tlc(o.pid, family, module, cfg, simulate="num=1000000000", depth=depth, seed=seed, workers=workers,
+            timeout=seconds + 120, stop_after=seconds)
     if r.violation or r.error:
         raise Infra("simulation of %s/%s found a design-spec problem: %s\n%s" % (module, cfg, r.summary(), r.out[-3000:]))
     st = tr = 0
@@ -524,7 +527,7 @@ def run_schedules(pid, pkg, test, schedules, *, tag="main", env=None, timeout=18
 
 def conformance(o, family, module, cfg, pkg, schedules, *, test="TestExec", tag="main", env=None,
                 dev_cfgs=(), max_report=3, chunk=250, exec_timeout=1800, tv_timeout=900, dfs=False,
-                key=None, sample=2):
+                key=None, sample=2, replay_of=None):
     """Execute `schedules` on the implementation, validate every recorded trace against the trace spec `cfg`.
     A rejected trace is re-executed in a fresh process; only a reproduced rejection counts.  A reproduced
     rejection that a deviation configuration (known finding) accepts is reported as KNOWN-FINDING."""
@@ -567,6 +570,14 @@ def conformance(o, family, module, cfg, pkg, schedules, *, test="TestExec", tag=
         v2 = validate_traces(pid, family, module, cfg, t2, timeout=tv_timeout, dfs=dfs)
         if v2.rejected:
             rep = (t2, v2)
+        elif replay_of is not None:
+            # the schedule is not repeatable from its seed (online scheduler): replay the RECORDED trace's stimuli
+            rs = replay_of(traces[ti], pos)
+            t2, s2, _ = run_schedules(pid, pkg, test, [rs] * 8, tag=tag + "_re", env=env, timeout=exec_timeout)
+            v2 = validate_traces(pid, family, module, cfg, t2, timeout=tv_timeout, dfs=dfs)
+            if v2.rejected:
+                rep = (t2, v2)
+                sched = rs
         if rep is None:
             unreproduced.append((sid, pos, reason, traces[ti]))
             if len(unreproduced) >= 6 or len(unreproduced) >= len(seen_sched):
